@@ -253,6 +253,8 @@ def val(x) -> F:
     if isinstance(x, bool):
         return F(int(x))
     if isinstance(x, float):
+        if not math.isfinite(x):
+            return x      # an infinity of an `extreme` document (oracle only): equal to itself, unequal to every Fraction
         return F(*x.as_integer_ratio())
     return F(x)
 
@@ -1034,6 +1036,8 @@ def doc_stats(doc):
 
 def close(a, b, rel=F(1, 10 ** 9)) -> bool:
     a, b = val(a), val(b)
+    if isinstance(a, float) or isinstance(b, float):      # an infinity (NaN): the same one, nothing else is close to it
+        return a == b
     return abs(a - b) <= rel * max(abs(a), abs(b), F(1, 10 ** 6))
 
 
